@@ -148,6 +148,11 @@ class HistoryInterp(Hooks):
                 if len(vars_) == 2 and sorted(vars_.values()) == [-1, 1]:
                     # len(U) - len(R) + c op 0 : the pointer form (pointer = lenU - lenR - 1)
                     pos = [k for k, v in vars_.items() if v == 1][0]
+                    if pos != self.stacks[0]:
+                        # len(R) - len(U) + c op 0   ==   len(U) - len(R) - c  (flipped op) 0
+                        flip = {ast.Lt: ast.Gt, ast.Gt: ast.Lt, ast.LtE: ast.GtE, ast.GtE: ast.LtE}.get(type(op))
+                        if flip is not None:
+                            op, c, pos = flip(), -c, self.stacks[0]
                     if pos == self.stacks[0]:
                         # pointer + (c+1) op 0
                         k = c + 1
@@ -189,10 +194,21 @@ class HistoryInterp(Hooks):
         if isinstance(e, (ast.List, ast.Tuple)):
             out = Seq()
             for x in e.elts:
-                out = out + Seq([("elem", self.val(x, h))])
+                if isinstance(x, ast.Starred):
+                    q_ = self.seq_of(x.value, h)
+                    if q_ is None:
+                        return None
+                    out = out + q_
+                else:
+                    out = out + Seq([("elem", self.val(x, h))])
             return out
         if isinstance(e, ast.Call) and call_name(e) in ("list", "tuple") and len(e.args) == 1:
             return self.seq_of(e.args[0], h)
+        if isinstance(e, ast.BinOp) and isinstance(e.op, ast.Add):
+            a_, b_ = self.seq_of(e.left, h), self.seq_of(e.right, h)
+            return a_ + b_ if a_ is not None and b_ is not None else None
+        if isinstance(e, ast.Starred):
+            return self.seq_of(e.value, h)
         rev = None
         if isinstance(e, ast.Call) and call_name(e) == "reversed" and len(e.args) == 1:
             rev = self.seq_of(e.args[0], h)
@@ -237,6 +253,8 @@ class HistoryInterp(Hooks):
                 want = {self.stacks[0]: 1, self.stacks[1]: -1, "1": -1}
                 if lin is not None and {k: v for k, v in lin.items() if v} == want:
                     return f"{h.stacks[s]!r}[ptr]"
+                if lin is not None and s == self.stacks[0] and {k: v for k, v in lin.items() if v} == {self.stacks[1]: -1, "1": -1}:
+                    return f"{h.stacks[s]!r}[ptr]"  # counted from the end: len(U) - 1 - len(R)
                 if norm(e.slice) == "-1":
                     return f"{h.stacks[s]!r}[-1]"
                 return f"{h.stacks[s]!r}[{norm(e.slice)}]"
@@ -381,10 +399,159 @@ def transfer_loops(fn: ast.FunctionDef, stacks: list[str]) -> ast.FunctionDef:
     return fn
 
 
+def _no_early_return(stmts):
+    """`if c: return` + rest  ->  `if c: pass else: rest` (only for value-less returns), so that a helper body can be pasted"""
+    out = []
+    for i, s_ in enumerate(stmts):
+        if isinstance(s_, ast.If) and len(s_.body) == 1 and isinstance(s_.body[0], ast.Return) and s_.body[0].value is None and not s_.orelse:
+            rest = _no_early_return(stmts[i + 1:])
+            out.append(ast.copy_location(ast.If(test=s_.test, body=[ast.copy_location(ast.Pass(), s_)], orelse=rest or [ast.copy_location(ast.Pass(), s_)]), s_))
+            return out
+        if isinstance(s_, ast.Return) and s_.value is None:
+            return out
+        out.append(s_)
+    return out
+
+
+def normalise_history(fn: ast.FunctionDef, cls, stacks: list[str]) -> ast.FunctionDef:
+    """Behaviour-preserving rewrites into the forms the sequence algebra reads:
+       * `self._helper()` (no arguments, no result) of the same class is replaced by the helper's body;
+       * a local that is just another name for a stack (`pending = self.redo_stack`) is replaced by the stack, for the
+         uses that precede any re-binding of that stack attribute;
+       * `try: x = self.S.pop() / except IndexError: H`  ->  `if self.S: x = self.S.pop() else: H`;
+       * `self.S[len(self.S):] = X`  ->  `self.S.extend(X)`."""
+    import copy
+
+    fn = copy.deepcopy(fn)
+
+    def inline(stmts, depth=0):
+        out = []
+        for s_ in stmts:
+            if (isinstance(s_, ast.Expr) and isinstance(s_.value, ast.Call) and isinstance(s_.value.func, ast.Attribute) and norm(s_.value.func.value) == "self"
+                    and not s_.value.args and not s_.value.keywords and cls is not None and s_.value.func.attr in cls.methods and depth < 2):
+                h = cls.methods[s_.value.func.attr]
+                if any(self_attr(x) in stacks for x in ast.walk(h.node)) and not any(isinstance(r, ast.Return) and r.value is not None for r in ast.walk(h.node)):
+                    body = [b for b in copy.deepcopy(h.node.body) if not (isinstance(b, ast.Expr) and isinstance(b.value, ast.Constant))]
+                    out.extend(inline(_no_early_return(body), depth + 1))
+                    continue
+            for fld in ("body", "orelse", "finalbody"):
+                sub = getattr(s_, fld, None)
+                if isinstance(sub, list) and sub and isinstance(sub[0], ast.stmt):
+                    setattr(s_, fld, inline(sub, depth))
+            out.append(s_)
+        return out
+
+    fn.body = inline(fn.body)
+    # try / except IndexError around a pop
+    def untry(stmts):
+        out = []
+        for s_ in stmts:
+            for fld in ("body", "orelse", "finalbody"):
+                sub = getattr(s_, fld, None)
+                if isinstance(sub, list) and sub and isinstance(sub[0], ast.stmt):
+                    setattr(s_, fld, untry(sub))
+            if isinstance(s_, ast.Try) and len(s_.body) == 1 and len(s_.handlers) == 1 and not s_.finalbody and "IndexError" in norm(s_.handlers[0].type or ast.Constant("")):
+                pops = [c for c in ast.walk(s_.body[0]) if isinstance(c, ast.Call) and call_name(c) == "pop" and self_attr(c.func.value) in stacks]
+                if len(pops) == 1:
+                    st_name = self_attr(pops[0].func.value)
+                    test = ast.Attribute(value=ast.Name("self", ast.Load()), attr=st_name, ctx=ast.Load())
+                    out.append(ast.copy_location(ast.If(test=test, body=s_.body + s_.orelse, orelse=s_.handlers[0].body), s_))
+                    continue
+            out.append(s_)
+        return out
+
+    fn.body = untry(fn.body)
+    # aliases of the stacks
+    alias = {}
+    for s_ in ast.walk(fn):
+        if isinstance(s_, ast.Assign) and len(s_.targets) == 1 and isinstance(s_.targets[0], ast.Name) and self_attr(s_.value) in stacks:
+            alias.setdefault(s_.targets[0].id, []).append(s_)
+    rebind = {st_: min([x.lineno for x in ast.walk(fn) if isinstance(x, ast.Assign) and any(self_attr(t) == st_ and isinstance(t, ast.Attribute) for t in x.targets)] or [10**9]) for st_ in stacks}
+
+    class A(ast.NodeTransformer):
+        def visit_Name(self, n):
+            if isinstance(n.ctx, ast.Load) and n.id in alias and len(alias[n.id]) == 1:
+                d_ = alias[n.id][0]
+                st_ = self_attr(d_.value)
+                if d_.lineno < getattr(n, "lineno", 0) <= rebind[st_] or (getattr(n, "lineno", 0) > d_.lineno and rebind[st_] == 10**9):
+                    return ast.copy_location(ast.Attribute(value=ast.Name("self", ast.Load()), attr=st_, ctx=ast.Load()), n)
+            return n
+
+    fn = A().visit(fn)
+    # slice assignment at the end = extend
+    class Sl(ast.NodeTransformer):
+        def visit_Assign(self, n):
+            t = n.targets[0]
+            if len(n.targets) == 1 and isinstance(t, ast.Subscript) and self_attr(t.value) in stacks and isinstance(t.slice, ast.Slice) and t.slice.upper is None \
+                    and t.slice.step is None and t.slice.lower is not None and norm(t.slice.lower) == f"len(self.{self_attr(t.value)})":
+                call = ast.Call(func=ast.Attribute(value=t.value, attr="extend", ctx=ast.Load()), args=[n.value], keywords=[])
+                return ast.copy_location(ast.Expr(call), n)
+            return n
+
+    fn = Sl().visit(fn)
+
+    # annotated assignments are assignments; boolean flags are their definitions
+    class Ann(ast.NodeTransformer):
+        def visit_AnnAssign(self, n):
+            if n.value is not None and isinstance(n.target, ast.Name):
+                return ast.copy_location(ast.Assign(targets=[n.target], value=n.value), n)
+            return n
+
+    fn = Ann().visit(fn)
+    flags = {}
+    for s_ in ast.walk(fn):
+        if isinstance(s_, ast.Assign) and len(s_.targets) == 1 and isinstance(s_.targets[0], ast.Name) and (
+                isinstance(s_.value, (ast.Compare, ast.BoolOp)) or (isinstance(s_.value, ast.UnaryOp) and isinstance(s_.value.op, ast.Not))
+                or (isinstance(s_.value, ast.Call) and call_name(s_.value) == "bool" and len(s_.value.args) == 1)):
+            flags.setdefault(s_.targets[0].id, []).append(s_.value.args[0] if isinstance(s_.value, ast.Call) else s_.value)
+    flags = {k: v[0] for k, v in flags.items() if len(v) == 1}
+    # the flag's definition may use a pointer local: expand single-assignment arithmetic locals inside it
+    simple = {}
+    for s_ in ast.walk(fn):
+        if isinstance(s_, ast.Assign) and len(s_.targets) == 1 and isinstance(s_.targets[0], ast.Name) and s_.targets[0].id not in flags:
+            simple.setdefault(s_.targets[0].id, []).append(s_.value)
+
+    def expand_locals(e):
+        class Ex(ast.NodeTransformer):
+            def visit_Name(self, n):
+                v = simple.get(n.id)
+                if isinstance(n.ctx, ast.Load) and v and len(v) == 1 and isinstance(v[0], (ast.Attribute, ast.BinOp, ast.Call)) and "pop" not in norm(v[0]) and "inverse" not in norm(v[0]):
+                    return copy.deepcopy(v[0])
+                return n
+
+        return Ex().visit(copy.deepcopy(e))
+
+    def flag_stmts(stmts):
+        out = []
+        for s_ in stmts:
+            for fld in ("body", "orelse", "finalbody"):
+                sub = getattr(s_, fld, None)
+                if isinstance(sub, list) and sub and isinstance(sub[0], ast.stmt):
+                    setattr(s_, fld, flag_stmts(sub))
+            if isinstance(s_, (ast.If, ast.While)):
+                t = s_.test
+                neg = isinstance(t, ast.UnaryOp) and isinstance(t.op, ast.Not)
+                core = t.operand if neg else t
+                if isinstance(core, ast.Name) and core.id in flags:
+                    d_ = expand_locals(flags[core.id])
+                    s_.test = ast.copy_location(ast.UnaryOp(ast.Not(), d_) if neg else d_, t)
+            if isinstance(s_, ast.Return) and isinstance(s_.value, ast.Name) and s_.value.id in flags:
+                d_ = expand_locals(flags[s_.value.id])
+                out.append(ast.copy_location(ast.If(test=d_, body=[ast.copy_location(ast.Return(ast.Constant(True)), s_)],
+                                                    orelse=[ast.copy_location(ast.Return(ast.Constant(False)), s_)]), s_))
+                continue
+            out.append(s_)
+        return out
+
+    fn.body = flag_stmts(fn.body)
+    ast.fix_missing_locations(fn)
+    return fn
+
+
 def history_paths(m: FuncInfo, stacks, props):
     hi = HistoryInterp(stacks, props)
     w = PathWalker(hi, loop_iters=2)
-    fn = transfer_loops(m.node, stacks)
+    fn = transfer_loops(normalise_history(m.node, m.cls, stacks), stacks)
     return [(st.data, kind) for st, kind, node in w.run(fn, HState(stacks))]
 
 
